@@ -603,6 +603,7 @@ func checkConc(sc scen.Conc, run *concRun) []scen.Finding {
 			ac[t]++
 		}
 		mult := map[string]int{}
+		whereOf := map[string]string{}
 		first := map[string]frec{}
 		apiTok := map[string]bool{}
 		for _, f := range recs {
@@ -617,6 +618,9 @@ func checkConc(sc scen.Conc, run *concRun) []scen.Finding {
 				first[f.Tok] = f
 			}
 			mult[f.Tok]++
+			if w := sc.Tree.Where(f.Leaf); whereRank[w] > whereRank[whereOf[f.Tok]] {
+				whereOf[f.Tok] = w
+			}
 		}
 		for tok, a := range ac {
 			if tok == "pingback" {
@@ -637,13 +641,13 @@ func checkConc(sc scen.Conc, run *concRun) []scen.Finding {
 			case f.span.S >= q.Span.E:
 				add("conc:phantom:"+scen.TokKind(tok), fmt.Sprintf("%s %v: %s reported although its evaluation began at %d", q.Name, q.Span, tok, f.span.S))
 			case mustErase(f.span):
-				add("stale_after_reset:"+sc.Tree.Where(f.Leaf)+":"+side(f.Rec), fmt.Sprintf("%s %v: %s (recorded %v by verifier node %d, %s) survived a reset that completed before the query began", q.Name, q.Span, tok, f.span, f.Leaf, sc.Tree.Where(f.Leaf)))
+				add("stale_after_reset:"+whereOf[tok]+":"+side(f.Rec), fmt.Sprintf("%s %v: %s (recorded %v by a verifier in position %s) survived a reset that completed before the query began", q.Name, q.Span, tok, f.span, whereOf[tok]))
 			}
 		}
 		for tok, m := range mult {
 			f := first[tok]
 			if ac[tok] < m && f.span.E < q.Span.S && !mayErase(f.span) {
-				add("conc:lost:"+sc.Tree.Where(f.Leaf)+":"+side(f.Rec), fmt.Sprintf("%s %v: %s was recorded during %v, no reset intervened, but it is reported %d of %d time(s)", q.Name, q.Span, tok, f.span, ac[tok], m))
+				add("conc:lost:"+whereOf[tok]+":"+side(f.Rec), fmt.Sprintf("%s %v: %s was recorded during %v, no reset intervened, but it is reported %d of %d time(s)", q.Name, q.Span, tok, f.span, ac[tok], m))
 			}
 		}
 		// pingback
@@ -695,6 +699,8 @@ func checkConc(sc scen.Conc, run *concRun) []scen.Finding {
 	}
 	return out
 }
+
+var whereRank = map[string]int{"": 0, "top": 1, "group": 2, "true_branch": 3, "else_branch": 4}
 
 func vrtSpawn(f func()) func() bool {
 	t := vrt.GoNamed("c13-thread", f)
@@ -1054,14 +1060,14 @@ func main() {
 	rep.Coverage["conc_scenarios_detail"] = concSamples
 	rep.Coverage["race_pass"] = map[string]interface{}{"scenarios": rr.Scenarios, "iterations": rr.Iterations, "reports": len(rr.Reports), "signatures": raceSigs, "seconds": rr.Seconds, "error": rr.Err}
 	rep.Coverage["exhaustive"] = rep.Incomplete == ""
-	rep.Coverage["rule"] = "sequential: every numbered tree with <= n nodes x every sequence of exactly L symbols over the tree's alphabet (all routing x met/unmet decision paths as plain messages; API-marked messages per routing path that reaches a verifier, with all expectations unmet, and also all met when a pingback verifier is present; GET /verify; POST /verify/reset), checked step by step so every shorter history is covered as a prefix, plus one final query; extensions of a failing prefix are skipped. A history is non-trivial when some query in it (explicit or final) has an expected answer different from the fresh tree's. concurrent: all interleavings of the rewritten lock operations of the listed scenarios."
-	rep.Coverage["bounds"] = fmt.Sprintf("sequential: %d trees with <= %d nodes, histories of length <= %d; concurrent: %d scenarios (1-3 traffic threads x 1-2 exchanges, 1-2 query threads, 0-1 reset thread), unbounded preemptions; race pass: %d scenarios x iterations = %d free-running runs", len(jobs), maxN, lenFor(maxN), len(scs), rr.Scenarios, rr.Iterations)
+	rep.Coverage["rule"] = "sequential: every numbered tree with <= n nodes x every sequence of exactly L symbols over the tree's alphabet (all routing x met/unmet decision paths as plain messages; API-marked messages per routing path that reaches a verifier, with all expectations unmet, and also all met when a pingback verifier is present; GET /verify; POST /verify/reset), checked step by step so every shorter history is covered as a prefix, plus one final query; extensions of a failing prefix are skipped. A history is non-trivial when some query in it (explicit or final) has an expected answer different from the fresh tree's. concurrent: every scenario in conc_scenarios_detail, each either over all interleavings of the rewritten lock operations (preemption_bound 0) or over all schedules up to the stated preemption bound."
+	rep.Coverage["bounds"] = fmt.Sprintf("sequential: all %d trees with <= %d nodes x all histories of length <= %d over the per-tree alphabet; concurrent: %d scenarios explored over all interleavings of their lock operations (pairs of threads and small triples: traffic/query/reset) + %d scenarios (2-3 traffic threads x 1-2 exchanges, query thread, optional reset thread) explored over all schedules with at most 2 (quick) / 3 (thorough) preemptions; race pass: %d scenarios, %d free-running runs under -race", len(jobs), maxN, lenFor(maxN), rep.Counter("conc_scenarios_all_interleavings"), rep.Counter("conc_scenarios_preemption_bounded"), rr.Scenarios, rr.Iterations)
 	rep.Assumptions = []string{
 		"traffic is applied as the proxy applies it (martian context linked to the request, ModifyRequest then ModifyResponse on the configurable martianhttp.Modifier); no sockets are involved; API requests are marked through the context exactly like api.Forwarder does",
 		"one parameterisation per verifier kind (status 200, header X-Vh: ok, method GET, url host, query qv=ok, failure message per node, pingback path); the header expectation is toggled on request and response together; filters are querystring.Filter (all filter kinds share filter.Filter's verification code)",
 		"error messages are attributed to verifier kinds by their documented formats and to messages by a unique id= query parameter; order of errors in the answer is not constrained",
 		"sequential histories recycle request objects (hence martian contexts) between histories; every history runs on a freshly parsed configuration (the first history of each tree through the /configure handler, the others through parse.FromJSON + SetRequestModifier/SetResponseModifier)",
-		"schedule exploration interleaves at lock operations only (gosim); unsynchronised accesses are the business of the auxiliary -race pass, which is a sampling of real schedules, not exhaustive",
+		"schedule exploration interleaves at lock operations only (gosim) and has no partial-order reduction: the 3-4 thread scenarios are complete only up to a preemption bound (every added lock or API-exemption check in martian multiplies the interleavings, the scenario sizes are chosen for the repaired tree); unsynchronised accesses are the business of the auxiliary -race pass, which is a sampling of real schedules, not exhaustive",
 		"pingback.Verifier makes no HTTP call in this version (it watches traffic for a URL); its expectation is modelled as 'one error while no matching non-API request was seen since the last reset'",
 	}
 	rep.Finish()
